@@ -33,31 +33,41 @@ Init == pc = "base" /\ base = [mat |-> 0, rho |-> 1, imp |-> 1, fill |-> 0, u |-
         /\ c2 = <<>> /\ c3 = <<>> /\ chain3 = 1
 Base == pc = "base" /\ \E p \in Params : (p.mat = 0 => p.rho = 1) /\ p.imp = 1 /\ (p.fill = 0 => p.ft = 0) /\ base' = p
         /\ pc' = "c2" /\ UNCHANGED <<c2, c3, chain3>>
-C2 == pc = "c2" /\ (\E x \in { [but |-> b, vals |-> v] : b \in SUBSET Keys,
-                                  v \in [mat : {1, 2}, rho : {1, 2}, imp : {0, 1}, fill : {0, 1, 2}, u : {0, 3}, ft : {0, 1}] } :
+(* keeptr: a LIKE cell that is moved to universe 3 may leave the TRCL alone and inherit it (with its spelling) *)
+C2 == pc = "c2" /\ (\E x \in { [but |-> b, vals |-> v, keeptr |-> kt] : b \in SUBSET Keys, kt \in BOOLEAN,
+                                  v \in [mat : {0, 1, 2}, rho : {1, 2}, imp : {0, 1}, fill : {0, 1, 2}, u : {0, 3}, ft : {0, 1}] } :
                         c2' = x)
       /\ pc' = "c3" /\ UNCHANGED <<base, c3, chain3>>
-C3 == pc = "c3" /\ (\E x \in { [but |-> b, vals |-> v] : b \in SUBSET Keys,
-                                  v \in [mat : {1, 2}, rho : {1, 2}, imp : {0, 1}, fill : {0, 1, 2}, u : {0, 3}, ft : {0, 1}] },
+C3 == pc = "c3" /\ (\E x \in { [but |-> b, vals |-> v, keeptr |-> kt] : b \in SUBSET Keys, kt \in BOOLEAN,
+                                  v \in [mat : {0, 1, 2}, rho : {1, 2}, imp : {0, 1}, fill : {0, 1, 2}, u : {0, 3}, ft : {0, 1}] },
                        ch \in {1, 2} : c3' = x /\ chain3' = ch)
       /\ pc' = "emit" /\ UNCHANGED <<base, c2>>
 
 Eff2 == Override(base, c2.but, c2.vals)
 Eff3 == Override(IF chain3 = 2 THEN Eff2 ELSE base, c3.but, c3.vals)
 (* a material cell needs a density: overriding MAT of a void base without RHO is not a valid card *)
-Valid == /\ (base.mat = 0 /\ "mat" \in c2.but) => "rho" \in c2.but
-         /\ ((IF chain3 = 2 THEN Eff2 ELSE base).mat = 0 /\ "mat" \in c3.but) => "rho" \in c3.but
+Valid == /\ (base.mat = 0 /\ "mat" \in c2.but /\ c2.vals.mat # 0) => "rho" \in c2.but
+         /\ ((IF chain3 = 2 THEN Eff2 ELSE base).mat = 0 /\ "mat" \in c3.but /\ c3.vals.mat # 0) => "rho" \in c3.but
          /\ (base.mat = 0 => "rho" \notin c2.but \/ "mat" \in c2.but)
          /\ ((IF chain3 = 2 THEN Eff2 ELSE base).mat = 0 => "rho" \notin c3.but \/ "mat" \in c3.but)
+         (* MAT=0 on a BUT list makes the copy void: no RHO next to it *)
+         /\ ("mat" \in c2.but /\ c2.vals.mat = 0) => "rho" \notin c2.but
+         /\ ("mat" \in c3.but /\ c3.vals.mat = 0) => "rho" \notin c3.but
 S(n) == <<"S", n, 0>>
-MkCell(n, p, shift, like, but) ==
+MkCell(n, p, tr, like, but) ==
   [n |-> n, geom |-> <<"*", S(1), S(-2)>>, mat |-> p.mat, rho |-> IF p.mat = 0 THEN 0 ELSE p.rho,
    imp |-> p.imp, fill |-> p.fill, u |-> p.u,
    hasftr |-> (p.fill # 0 /\ p.ft = 1), ftr |-> [o |-> <<0, 1, 1>>, m |-> IdM],
-   hastrcl |-> (shift # 0 \/ p.ty # 0), trcl |-> Shift(shift, p.ty), like |-> like, but |-> but]
-Deck == << MkCell(1, base, 0, 0, {}),
-           MkCell(2, Eff2, 2, 1, c2.but \cup {"trcl"}),
-           MkCell(3, Eff3, 4, chain3, c3.but \cup {"trcl"}),
+   hastrcl |-> tr.has, trcl |-> tr.tr, like |-> like, but |-> but]
+KeepsTr(c) == c.keeptr /\ "u" \in c.but /\ c.vals.u = 3
+But2 == IF KeepsTr(c2) THEN c2.but ELSE c2.but \cup {"trcl"}
+But3 == IF KeepsTr(c3) THEN c3.but ELSE c3.but \cup {"trcl"}
+Tr1 == [has |-> base.ty # 0, tr |-> Shift(0, base.ty)]
+Tr2 == IF "trcl" \in But2 THEN [has |-> TRUE, tr |-> Shift(2, base.ty)] ELSE Tr1
+Tr3 == IF "trcl" \in But3 THEN [has |-> TRUE, tr |-> Shift(4, base.ty)] ELSE IF chain3 = 2 THEN Tr2 ELSE Tr1
+Deck == << MkCell(1, base, Tr1, 0, {}),
+           MkCell(2, Eff2, Tr2, 1, But2),
+           MkCell(3, Eff3, Tr3, chain3, But3),
            [n |-> 4, geom |-> S(-1), mat |-> 0, rho |-> 0, imp |-> 1, fill |-> 0, u |-> 0, hasftr |-> FALSE, ftr |-> Shift(0, 0),
             hastrcl |-> FALSE, trcl |-> Shift(0, 0), like |-> 0, but |-> {}],
            [n |-> 5, geom |-> S(4), mat |-> 0, rho |-> 0, imp |-> 0, fill |-> 0, u |-> 0, hasftr |-> FALSE, ftr |-> Shift(0, 0),
